@@ -12,7 +12,8 @@
 // usage: refenc -plan plan.json -out dir
 //
 // plan.json: {"seed":1,"tier":"quick","items":[{"id":"i7","cfg":{"family":"zlib","level":-1,"dict":"preset"},"class":"text"},...],
-//             "hashlens":[0,1,...],"corpus":["/repo/test/data/hippopotamus.interlaced.png",...]}
+//
+//	"hashlens":[0,1,...],"corpus":["/repo/test/data/hippopotamus.interlaced.png",...]}
 package main
 
 import (
@@ -149,9 +150,9 @@ func repetitive(rng *rand.Rand, n int) []byte {
 func windowPayload(rng *rand.Rand) []byte {
 	r := randomBytes(rng, 32768)
 	b := append([]byte{}, r...)
-	b = append(b, r...)               // distance 32768
-	b = append(b, r[1:3000]...)       // distance 32768 + ... still inside the window of the second copy
-	b = append(b, b[len(b)-1])        // distance 1
+	b = append(b, r...)         // distance 32768
+	b = append(b, r[1:3000]...) // distance 32768 + ... still inside the window of the second copy
+	b = append(b, b[len(b)-1])  // distance 1
 	b = append(b, r[:700]...)
 	return b
 }
